@@ -651,11 +651,19 @@ class BaseModel(ModelInterface):
         """
         from leaspy import __version__
 
+        from .factory import get_model_name
         from .utilities import tensor_to_list
+
+        # "name" is read back as the kind of model to instantiate (cf. `model_factory`),
+        # the free-form name of the instance is stored apart when it differs from it.
+        model_name = get_model_name(self)
+        name = self.name if model_name is None else model_name.value
+        instance_name = {} if name == self.name else {"instance_name": self.name}
 
         return {
             "leaspy_version": __version__,
-            "name": self.name,
+            "name": name,
+            **instance_name,
             "features": self.features,
             "dimension": self.dimension,
             "hyperparameters": {
